@@ -110,6 +110,28 @@ def gen(rng, tier):
                 t = shapes_text(shape)
                 if t:
                     out.append(expect(parse_case(sch, t, d), k))
+    # limits beyond one byte: the counter must not be narrower than the u16 setting
+    for d in (255, 256, 257, 300):
+        for k in (d - 1, d, d + 1):
+            for c in "pn":
+                out.append(expect(parse_case(sch, shapes_text([c] * k), d), k))
+            mixed = [rng.choice("pn") for _ in range(k)]
+            out.append(expect(parse_case(sch, shapes_text(mixed), d), k))
+    # the deepest path runs through the 2nd / 3rd operand of a chain INSIDE parentheses (each level again)
+    for d in range(0, 6):
+        for k in range(0, 6):
+            t = "tt"
+            for _ in range(k):
+                t = "(tt or " + t + ")"
+            out.append(expect(parse_case(sch, t, d), k))
+            t = "tt"
+            for _ in range(k):
+                t = "(tt and num == 1 xor " + t + ")"
+            out.append(expect(parse_case(sch, t, d), k))
+            t = "tt"
+            for i in range(k):
+                t = ("not (tt or " if i % 2 else "(tt and ") + t + ")"
+            out.append(expect(parse_case(sch, t, d), k + sum(1 for i in range(k) if i % 2)))
     # the default limit (d = 128 by default): the library's own default, not a value we set
     for k in (126, 127, 128, 129, 130, 200):
         for c in "pnqf":
